@@ -87,6 +87,9 @@ CLAIMS.update({
    technique="Coq invariant produced = delivered ++ pending lifted over the whole run + differential correspondence of the delivery stream",
    text="Theorems C10_* (props/C10.v): in every normally ending run the sequence of order/cancel/fill/expiry records delivered to the logger equals the sequence the markets produced "
         "(same records, same order, each once); the invariant produced = delivered ++ pending holds after every atomic update; every boundary record flushes. "
+        "Begin / end records (theories/SimMarks.v): a run that ends without exception wrote exactly simulation begin, per session its begin record, per step one step-begin record per market "
+        "then one step-end record per market, its end record, and simulation end - for every configuration with distinct market ids, every tape and agent behaviour; "
+        "the order phase, the hooks and the clock update write none. "
         "The delivery stream of a recording Logger subclass (process_* calls incl. simulation/session/step begin-end records) is compared with the model on every generated run; "
         "the monitor compares deliveries with ground-truth events taken at the market's own methods.",
    note=S_NOTE),
